@@ -215,7 +215,11 @@ type dnode struct {
 	tmonitor, umonitor kcache.Monitor
 }
 
-func isForeign(s world.Spec) bool { return strings.HasPrefix(s.Name, "foreign") }
+// (foreign-typed objects are recognised by their name or by the label the
+// script gives them when they take the NAME of an object of the package's type)
+func isForeign(s world.Spec) bool {
+	return strings.HasPrefix(s.Name, "foreign") || s.Labels["foreign"] != ""
+}
 
 func genC20(g GenCtx) interface{} {
 	rng := g.Rng
@@ -285,7 +289,14 @@ func genC20(g GenCtx) interface{} {
 			}
 			inflight++
 		case r < 7 && sc.Foreign != "":
-			sc.Acts = append(sc.Acts, DAct{Op: "foreign", NS: pick(rng, "n1", "n2"), Name: "foreign" + pick(rng, "1", "2"), Labels: randLabels(rng)})
+			fa := DAct{Op: "foreign", NS: pick(rng, "n1", "n2"), Name: "foreign" + pick(rng, "1", "2"), Labels: randLabels(rng)}
+			if rng.Intn(3) == 0 {
+				// a foreign-typed object under the namespace/name of one of the
+				// package's own objects (the base cache is keyed by namespace/name only)
+				fa.NS, fa.Name = randKey(rng, nkeys)
+				fa.Labels["foreign"] = "1"
+			}
+			sc.Acts = append(sc.Acts, fa)
 			inflight++
 		case r < 8 && len(filt) > 0 && !small:
 			if rng.Intn(6) == 0 {
@@ -737,12 +748,13 @@ func sameUpToBatchOrder(a, b []string) bool {
 		return false
 	}
 	keyOf := func(s string) string {
-		f := strings.Fields(s)
+		// "<type> <ns>/<name>[@rv]" - names may contain spaces
+		f := strings.SplitN(s, " ", 2)
 		if len(f) < 2 {
 			return s
 		}
 		k := f[1]
-		if i := strings.Index(k, "@"); i >= 0 {
+		if i := strings.LastIndex(k, "@"); i >= 0 {
 			k = k[:i]
 		}
 		return k
